@@ -75,11 +75,13 @@ func (FinalizeProposal) Validate(ctx *action.Context, signedTx action.SignedTx) 
 }
 
 func (FinalizeProposal) ProcessCheck(ctx *action.Context, tx action.RawTx) (bool, action.Response) {
-	return runFinalizeProposal(ctx, tx)
+	// the mempool check only validates the configuration update: applying it would install the new
+	// options in the store objects shared with the consensus connection before any block executes it
+	return runFinalizeProposal(ctx, tx, action.ValidateOnly)
 }
 
 func (FinalizeProposal) ProcessDeliver(ctx *action.Context, tx action.RawTx) (bool, action.Response) {
-	return runFinalizeProposal(ctx, tx)
+	return runFinalizeProposal(ctx, tx, action.ValidateAndUpdate)
 }
 
 func (FinalizeProposal) ProcessFee(ctx *action.Context, signedTx action.SignedTx, start action.Gas, size action.Gas, gasUsed action.Gas) (bool, action.Response) {
@@ -94,7 +96,7 @@ func (FinalizeProposal) ProcessFee(ctx *action.Context, signedTx action.SignedTx
 	return true, action.Response{}
 }
 
-func runFinalizeProposal(ctx *action.Context, tx action.RawTx) (bool, action.Response) {
+func runFinalizeProposal(ctx *action.Context, tx action.RawTx, behaviour action.FunctionBehaviour) (bool, action.Response) {
 	finalizedProposal := FinalizeProposal{}
 	err := finalizedProposal.Unmarshal(tx.Data)
 	if err != nil {
@@ -159,7 +161,7 @@ func runFinalizeProposal(ctx *action.Context, tx action.RawTx) (bool, action.Res
 			if !ok {
 				return helpers.LogAndReturnFalse(ctx.Logger, governance.ErrFinalizeConfigUpdateFailed, finalizedProposal.Tags(), err)
 			}
-			ok, err = updatefunc(updateValue, ctx, action.ValidateAndUpdate)
+			ok, err = updatefunc(updateValue, ctx, behaviour)
 			if err != nil {
 				ctx.Logger.Debug("Governance auto update failed ", err)
 				err = setToFinalizeFailed(ctx, proposal)
